@@ -20,7 +20,7 @@ E2E = os.path.dirname(os.path.abspath(__file__))  # a scratch copy of this direc
 TARGET_REPO = f"{WORK}/target-repo" if REPO == "/repo" else f"{WORK}/target-repo-{hashlib.sha256(REPO.encode()).hexdigest()[:8]}"
 PAVEXC = f"{TARGET_REPO}/release/pavexc"
 BPGEN = f"{WORK}/target-verif/release/bpgen"
-HOME = f"{WORK}/homes/shared"
+HOME = f"{WORK}/homes/shared"  # replaced below by a directory private to (namespace, state of the repository sources)
 DOCS_TOOLCHAIN = "pavex-verif-docs"
 NSLOTS = int(os.environ.get("VERIF_SLOTS", "16"))
 # Namespace for scratch directories, so that several orchestrator processes (e.g. a developer run next
@@ -109,6 +109,48 @@ def tree_hash():
         h.update(b"\0")
         h.update(hashlib.sha256(data).digest())
     return h.hexdigest()[:20]
+
+
+def repo_sources_hash():
+    """Hash of the repository sources pavexc is built from (not of the harness)."""
+    h = hashlib.sha256()
+    for r in (f"{REPO}/compiler", f"{REPO}/rustdoc", f"{REPO}/runtime"):
+        for root, dirs, fs in os.walk(r):
+            dirs[:] = sorted(d for d in dirs if d not in ("target", "ui_tests", ".git", "node_modules"))
+            for fn in sorted(fs):
+                p = os.path.join(root, fn)
+                try:
+                    with open(p, "rb") as f:
+                        data = f.read()
+                except OSError:
+                    continue
+                h.update(p[len(REPO):].encode())
+                h.update(b"\0")
+                h.update(hashlib.sha256(data).digest())
+    return h.hexdigest()[:12]
+
+
+def _private_home():
+    """pavexc keeps parsed annotations of documented crates in $HOME/.pavex/rustdoc/cache; its cache fingerprint does not
+    cover every crate that produces them (e.g. pavexc_attr_parser), so a cache written by a pavexc built from OTHER
+    sources would hide changes of /repo. The cache is therefore private to the state of the repository sources (and to the
+    namespace); the two most recent ones are kept."""
+    ns = NS.strip("-") or "main"
+    home = f"{WORK}/homes/{ns}-{repo_sources_hash()}"
+    base = f"{WORK}/homes"
+    if not os.path.isdir(home):
+        os.makedirs(home, exist_ok=True)
+        try:
+            old = sorted((d for d in os.listdir(base) if d.startswith(ns + "-") and os.path.join(base, d) != home),
+                         key=lambda d: os.path.getmtime(os.path.join(base, d)))
+            for d in old[:-1]:
+                shutil.rmtree(os.path.join(base, d), ignore_errors=True)
+        except OSError:
+            pass
+    return home
+
+
+HOME = _private_home()
 
 
 # --------------------------------------------------------------------------------------------------
